@@ -452,6 +452,32 @@ def runEventsP (env : Env DBT DH) : Nat → Codec DH → TStream → Nat → Lis
     | .panic _ => ["panic"]
     | .hang => ["hang"]
 
+/-- the `run` loop over the opaque-payload environment (`drvEnvT`): as `runEvents`, and the bodies of the
+payload kinds (Header, Block, CompactBlock, Transaction, StemTransaction, the four segment responses) are
+delivered as their raw bytes - their decoders belong to C10 / C11; the harness sends canonical encodings and
+prints the value re-serialised -/
+def runEventsO (env : Env DBT DH) : Nat → Codec DH → List Bytes → List String
+  | 0, _, _ => ["hang"]
+  | fuel+1, c, s =>
+    let o := read env fragOps c s
+    match o.res with
+    | .msg m =>
+      let ev := match m with
+        | .unknown t => s!"unknown:{t}:{o.bytesRead}"
+        | .body t v => s!"body:{t}:{toHex (encBody id v)}:{o.bytesRead}"
+        | .headers hs rem =>
+          s!"headers:{hs.length}:{rem}:{toHex (hs.map (encBlockHeader GV.Gen.AUTOMATED_TESTING_PROOF_SIZE .full)).flatten}:{o.bytesRead}"
+        | .attachment rd left bytes => s!"att:{rd}:{left}:{checksumLoop bytes 0 0}:{o.bytesRead}"
+      let c' := match drvAttachT m with
+        | some size => expectAttachment o.codec size
+        | none => some o.codec
+      match c' with
+      | none => [ev, "panic"]
+      | some c' => ev :: runEventsO env fuel c' o.sock
+    | .err e => [s!"end:{e.name}:{o.bytesRead}"]
+    | .panic _ => ["panic"]
+    | .hang => ["hang"]
+
 def LOCAL_PROTOCOL_VERSION' : Nat := 1000
 
 /-- the decision of `accept` for a `Hand` with our genesis carrying `nonce`, against the ring -/
@@ -797,7 +823,7 @@ def handle (st : St) (args : List String) (impl : String) : St × Verdict :=
   | ["run", ver, frags] =>
     match nat? ver, parseHexList frags with
     | some ver, some fr =>
-      let evs := runEvents (drvEnv ver) 100000 Codec.new fr
+      let evs := runEventsO (drvEnvT ver) 100000 Codec.new fr
       let model := s!"[{";".intercalate evs}]"
       let (implCore, maxreq) := splitEndMaxreq impl
       if implCore ≠ model then (st, .diff model)
